@@ -148,6 +148,15 @@ def make_sampler(case):
     s.nlive = int(case["nlive"])
     s.plot = False
     s._plot_level_cdf = False
+    if case.get("plot"):
+        # documented diagnostics (plot=True, plot_level_cdf=True): the CDF of
+        # every level is drawn; it must not change what is chosen
+        import tempfile
+
+        s.plot = True
+        s._plot_level_cdf = True
+        s.output = tempfile.mkdtemp(prefix="vf-c17-")
+        s.iteration = 0
     return s
 
 
@@ -220,14 +229,32 @@ def check_threshold_case(case):
                 f"the quantile, method returned {n_m}", case)
 
     # -- the clamped threshold
+    arg = samples.copy()
     try:
         with np.errstate(all="ignore"):
             thr = sampler.determine_log_likelihood_threshold(
-                samples.copy(), method=method, **kw)
+                arg, method=method, **kw)
     except Exception as e:
         raise Violation(
             f"threshold:exception:{type(e).__name__}@{_site(e)}",
             f"{type(e).__name__}: {e} (own choice {n_m}, size {size})", case)
+    finally:
+        if case.get("plot"):
+            import shutil
+
+            import matplotlib.pyplot as plt
+
+            plt.close("all")
+            shutil.rmtree(sampler.output, ignore_errors=True)
+    if case.get("plot"):
+        labels.append("level-cdf-plotted")
+    # choosing a threshold is a query: the live samples are the sampler's own
+    # array and must come back as they went in
+    if arg.tobytes() != samples.tobytes():
+        raise Violation(
+            "threshold:live-samples-modified",
+            "determine_log_likelihood_threshold changed the live samples it "
+            f"was given (plot={bool(case.get('plot'))})", case)
     try:
         thr = float(thr)
     except Exception:
@@ -489,6 +516,8 @@ def threshold_cases(draw):
         "min_samples": min_samples, "min_remove": min_remove,
         "nlive": nlive, "max_samples": max_samples,
         "draw_constant": draw(st.sampled_from([True, True, False])),
+        "plot": method == "entropy" and n <= 400 and draw(
+            st.integers(0, 15)) == 0,
     }
 
 
@@ -576,8 +605,11 @@ def real_runs(ctx, cases=None):
     out = Outcome()
     if cases is None:
         n = 10 if ctx.quick else 120
-        cases = configs.collect(configs.ins_job(), ctx.seed + 17, n)
-    hist = [configs.history_from(c, ["ins"]) for c in cases]
+        # half of the runs are killed once and resumed: the configured
+        # limits must survive a checkpoint
+        cases = configs.collect(configs.ins_job(resume_cycles=(0, 1)),
+                                ctx.seed + 17, n)
+    hist = [configs.history_from(c, ["ins", "ins_levels"]) for c in cases]
     res = runs.run_histories("c17", hist)
     n_train = 0
     for case, reps in zip(cases, res):
@@ -596,6 +628,17 @@ def real_runs(ctx, cases=None):
                 v.case = dict(kind="training-size-run", run_case=case,
                               record=v.case["record"])
                 out.add(v)
+            # thresholds chosen during the run vs the configured limits
+            for mv in r.get("violations") or []:
+                if mv["key"].startswith("runs:"):
+                    out.add(Violation(
+                        mv["key"], f"{mv['msg']} (x{mv['count']})",
+                        dict(kind="training-size-run", run_case=case,
+                             record={})))
+            n_thr_run = ((data.get("ins_levels") or {}).get("n") or 0)
+            out.stats.extra["real_run_thresholds_checked"] = \
+                out.stats.extra.get("real_run_thresholds_checked", 0) + \
+                n_thr_run
         ok = reps[-1].get("status") == "completed"
         out.stats.case(
             {"run": case["kwargs"], "model": case["model"]},
